@@ -9,7 +9,7 @@ def S(name, quick, thorough, search=None, args=None):
 PROPS = {
     'C01': {
         'lean': ['MageModel.Props.C01', 'MageModel.Bridge.Deps'],
-        'streams': [S('deps', 150, 3000)],
+        'streams': [S('deps', 150, 3000), S('ident', 400, 6000)],
         'trusted': ['Go runtime scheduler and sync.{Mutex,Once,WaitGroup} (modelled as atomic moves)', 'harness gates and the settle delay of its controller', 'the executable monitors of Deps/Monitor.lean are transcriptions of the theorem statements (self-checked on the model\'s own traces every run)'],
         'assumptions': ['acyclic dependency graphs (cycles deadlock); real interleavings inside sync primitives are sampled, not enumerated'],
         'rule': 'random acyclic programs (1-8 dependencies, 1-3 concurrent roots, 0-2 calls per body, parallel/serial/ctx forms, repeats, five outcome kinds, three function signatures) under a random gate-release schedule (5/6 gated, 1/6 free-running); distinct = different canonical (program, observed trace); trivial = trace of <= 3 events',
@@ -34,6 +34,13 @@ PROPS = {
         'trusted': ['Go runtime scheduler and sync.{Mutex,Once,WaitGroup} (modelled as atomic moves)', 'harness gates and the settle delay of its controller', 'the executable monitors of Deps/Monitor.lean are transcriptions of the theorem statements (self-checked on the model\'s own traces every run)'],
         'assumptions': ['acyclic dependency graphs (cycles deadlock); real interleavings inside sync primitives are sampled, not enumerated'],
         'rule': 'random acyclic programs (1-8 dependencies, 1-3 concurrent roots, 0-2 calls per body, parallel/serial/ctx forms, repeats, five outcome kinds, three function signatures) under a random gate-release schedule (5/6 gated, 1/6 free-running); distinct = different canonical (program, observed trace); trivial = trace of <= 3 events',
+    },
+    'C14': {
+        'lean': ['MageModel.Props.C14', 'MageModel.Bridge.C14'],
+        'streams': [S('c14', 1500, 30000), S('ident', 600, 8000)],
+        'trusted': ['reflect (TypeOf, FuncOf, MakeFunc, Value.Call, AssignableTo)', 'encoding/json as the identity of argument lists (spec-level equality is what the oracle computes; injectivity of the JSON encoding is not proved)', 'runtime.FuncForPC naming'],
+        'assumptions': ['argument strings are valid UTF-8 (known finding C14:invalid-utf8-arg otherwise)'],
+        'rule': 'signatures from a pool of 17 parameter types (4 supported, context, error, three struct{}-like receivers, 8 look-alikes) x receiver/context/variadic/result shapes built with reflect.FuncOf+MakeFunc, argument lists right or mutated (missing, surplus, look-alike type, untyped nil, explicit context); identity: pairs of mg.F values over 11 real functions/methods with tricky strings, observed via Name()/ID() and executions under mg.Deps',
     },
     'C15': {
         'lean': ['MageModel.Props.C15', 'MageModel.Bridge.C15'],
